@@ -99,7 +99,8 @@ PROPS = {
         level='other',
         contracts=[],
         functions=[],
-        case_functions=[dict(module='vf.contracts.layout_redirect', key='pygyro/model/layout.py::LayoutHandler')],
+        case_functions=[dict(module='vf.contracts.layout_redirect', key='pygyro/model/layout.py::LayoutHandler'),
+                        dict(module='vf.contracts.transpose_helpers', key='pygyro/model/layout.py::LayoutHandler')],
         bounded=[dict(module='vf.rt.bounded_layout', prop='C01',
                       bound='ranks 2-4, extents 2..7 (incl. n==p and uneven), process grids up to 3x2 incl. leading extent 1, '
                             'production layout sets + seeded random sets of 2-4 orderings, every ordered pair, with/without buffer, '
